@@ -21,6 +21,8 @@ def run_one(pid, tier, only=None):
         ctx = report.Ctx(pid, tier=tier, seed=int(os.environ.get('VERIF_SEED', '0') or 0))
         ctx.only = only
         mod.run(ctx)
+        if tier == 'thorough' and not only:
+            thorough_extras(ctx, pid)
         return report.finish(ctx, mod.LEVEL, mod.EXPLANATION, './check %s --tier %s' % (pid, tier))
     except AnchorMissing as e:
         print('ANALYSIS-ERROR property=%s anchor missing: %s' % (pid, e))
@@ -31,6 +33,39 @@ def run_one(pid, tier, only=None):
         print('ANALYSIS-ERROR property=%s internal error: %s' % (pid, e))
         traceback.print_exc()
         return 2
+
+
+def thorough_extras(ctx, pid):
+    """Deeper exploration for the thorough tier.  The source coverage of a static check is the same in both tiers (the whole
+    package is parsed); what is added here exercises the checker on this property: its slice of the seeded-variant self-test,
+    the independent seeded changes stored under /verif/seeded, and package-wide sweeps of the generic analyses (informational).
+    None of this changes the exit status of the property check."""
+    import subprocess
+    try:
+        from . import selftest
+        ctx.info['selftest'] = selftest.summary_for(pid)
+    except Exception as e:
+        ctx.info['selftest'] = {'error': str(e)}
+    try:
+        sd = os.path.join(report.VERIF, 'seeded')
+        names = sorted(n for n in os.listdir(sd) if os.path.exists(os.path.join(sd, n, 'meta.json')) and n.startswith(pid + '-')) if os.path.isdir(sd) else []
+        if names:
+            env = dict(os.environ, VERIF_TIER='quick')
+            p = subprocess.run([os.path.join(report.VERIF, 'tools', 'run_seeded.py')] + names, env=env, capture_output=True, text=True, timeout=900)
+            ctx.info['seeded_changes'] = [l for l in p.stdout.splitlines() if l and not l.startswith(' ')]
+    except Exception as e:
+        ctx.info['seeded_changes'] = ['error: %s' % e]
+    try:
+        from .effects import Analyzer, significant
+        an = Analyzer(ctx.repo)
+        sweep = {}
+        for key in sorted(an.funcs):
+            evs = [e for e in an.summary(key).events if significant(e) and e.ref.root != 'self']
+            if evs:
+                sweep['%s.%s' % key] = sorted({repr(e.ref) for e in evs})[:6]
+        ctx.info['package_sweep_argument_mutations'] = sweep
+    except Exception as e:
+        ctx.info['package_sweep_argument_mutations'] = {'error': str(e)}
 
 
 def main(argv):
